@@ -389,9 +389,19 @@ pub fn c05_peg_fee(_m: &mut Mon, ctx: &StepCtx, stats: &mut Stats, out: &mut Vec
         (Some(a), Some(b)) => (a, b),
         _ => return,
     };
-    let (rb, rs) = (atomics(ps.bsei_exchange_rate), atomics(ps.stsei_exchange_rate));
+    // the bSei rate the fee rules speak about is backing over *real* claims: circulating supply
+    // plus the open batch's requests as the users' own wait-list records (UnbondRequests) show them, not a
+    // batch column the hub may have left stale (both agree on the unchanged code; C07 compares them)
+    let ledger_open_b: u128 = pre.requests.values().flat_map(|v| v.iter()).filter(|r| r.0 == pre.batch.id).map(|r| r.1).sum();
+    let supply_b = ctx.pre.t(Tok::B).map(|t| t.supply).unwrap_or(0);
+    // (an empty pool has no backing-over-claims ratio: there the hub's reported rate stands)
+    let rb_true = if ps.total_bond_bsei_amount.is_zero() || supply_b + ledger_open_b == 0 { None } else { rate_of(ps.total_bond_bsei_amount.u128(), supply_b + ledger_open_b) };
+    let (rb, rs) = (rb_true.unwrap_or(atomics(ps.bsei_exchange_rate)), atomics(ps.stsei_exchange_rate));
+    if rb != atomics(ps.bsei_exchange_rate) {
+        stats.probe("c05_reported_rate_differs_from_ledger_rate");
+    }
     let fee = atomics(pre.params.peg_recovery_fee);
-    let fee_applies = ps.bsei_exchange_rate < pre.params.er_threshold;
+    let fee_applies = rb < atomics(pre.params.er_threshold);
     // (path, nofee, credited, tau)
     let mut cases: Vec<(&'static str, u128, u128, u128)> = vec![];
     if let Some((HUB, "bond")) = ctx.top() {
@@ -424,7 +434,7 @@ pub fn c05_peg_fee(_m: &mut Mon, ctx: &StepCtx, stats: &mut Stats, out: &mut Vec
     if cases.is_empty() {
         return;
     }
-    let claims_pre = ctx.pre.t(Tok::B).map(|t| t.supply).unwrap_or(0) + pre.batch.requested_bsei_with_fee.u128();
+    let claims_pre = supply_b + ledger_open_b;
     let below_peg_pre = ps.total_bond_bsei_amount.u128() < claims_pre;
     for (path, nofee, credited, tau) in cases {
         stats.check("c05_fee_case");
